@@ -6,6 +6,18 @@ HOOK_COMMITS = ["8d32335"]
 
 # id -> (technique, level text, level note, design ref)
 CHECKS = {
+ "C02": ("proptest tape-driven generation of argument templates and variable environments; reference-expander oracle (count, order, text of received arguments); direct run_instruction driver and rendered-text run_script driver",
+         "Generated-input search over templates (literal / ${name} / \\${name} / whole-argument %{name}) and environments whose values are arbitrary Unicode biased to syntax look-alikes naming existing variables; the arguments a capturing command receives must equal those of a 40-line reference expander. Exploration level: the space is unbounded, shrinking yields a minimal template+environment.",
+         "Trusts the reference expander as the reading of README 'Binding / Spread Binding'; domain restrictions in DESIGN.md C02 (names without openers/backslash, spread words without leading quote or '#').", "DESIGN.md section 3 C02"),
+ "C03": ("proptest tape-driven generation of programs over a scripted result-dictating command; model-based oracle (abstract machine transcribed from the statement) comparing call log, on_error log, final variables and Ok/Err(line, source)",
+         "Model-based generated search: every result kind, jumps with countdowns, duplicate/undefined labels, out-of-range lines, unknown commands, on_error configurations, text and file mode. Exploration level; shrinking gives minimal programs.",
+         "Trusts the 150-line abstract machine; fuel hook turns non-termination into a deterministic mismatch.", "DESIGN.md section 3 C03"),
+ "C06": ("exhaustive enumeration of all well-formed condition token sequences up to 11 (quick) / 14 (thorough) tokens plus proptest-generated longer ones; and-of-ors reference evaluator oracle through all four consumers; truthiness table sweep",
+         "Exhaustive generated search within the bound (30,541 / 601,647 sequences x 4 consumers) and random search beyond it, against an independent evaluator; truthiness spellings swept through not/if. Exploration level with an exhaustive sub-bound.",
+         "Trusts the 40-line reference evaluator and the ASCII-case-insensitive truthiness table; atom values never collide with command names or keywords.", "DESIGN.md section 3 C06"),
+ "C08": ("proptest tape-driven arbitrary-text generation (syntax soup, hazard Unicode, long lines) with totality/shape invariants, plus planted single malformed lines in generated well-formed scripts with error-kind/line oracle",
+         "Generated-input search: parse_text must return on every text and, when it accepts, yield one instruction per line with 1-based numbers; each documented malformation planted at a random line must be rejected with the matching kind and line, and the script must parse once that line is blanked. Exploration level.",
+         "Own line splitter; blank asserted only for space/tab/# lines; '!' lines excluded from the shape check.", "DESIGN.md section 3 C08"),
  "C01": ("proptest tape-driven generation of instructions + documented-syntax renderer; round-trip oracle render->parse_text",
          "Generated-input search: random instructions over hazard-biased arbitrary Unicode are rendered with random documented-syntax choices and must parse back to exactly the generated instruction (and n lines to n instructions with line numbers). Failures shrink to a minimal tape and replay file. Right level because the property is a round trip over an unbounded input space; absence is not proved.",
          "Trusts the 80-line renderer as a faithful reading of the README syntax; names restricted as listed in DESIGN.md C01.", "DESIGN.md section 3 C01"),
